@@ -7,8 +7,9 @@ package main
 //	           before typed decoding (tie of the tree model)
 //	op "cfg":  config.NewConfiguration (real Configuration struct, real decode hooks, real schema validation)
 //	op "validate": config.ValidateConfig on the file alone
-//	op "leaf": parser.New(...).Load into a probe struct with typed fields (string, int, bool, duration, nested, list)
-//	           with the decode hooks NewConfiguration uses: how one scalar arrives at a leaf of a given type
+//	op "leaf": parser.New(...).Load into a probe struct with typed fields (string, int, bool, duration, nested, list,
+//	           structures inside a list, free-form maps; optionally pre-filled with defaults) with the decode hooks
+//	           NewConfiguration uses: how one scalar arrives at a leaf of a given type
 //	op "yaml": how gopkg.in/yaml.v3 reads the text of an environment variable (what env.go toRealType does)
 //	op "history": several config.NewConfiguration loads one after the other in THIS process; every result is dumped
 //	           when it is returned and again after all later loads
@@ -47,6 +48,15 @@ type c20Probe struct {
 	X1 any `koanf:"x1"`
 }
 
+// c20Elem: a structure inside a list (like a mechanism): typed members and a free-form map
+type c20Elem struct {
+	S string         `koanf:"s"`
+	I int            `koanf:"i"`
+	C map[string]any `koanf:"c,omitempty"`
+}
+
+// slices and maps are `omitempty` as in the real Configuration (a typed nil slice among the defaults makes the
+// loader refuse every list for that property)
 type c20Typed struct {
 	S string        `koanf:"s"`
 	I int           `koanf:"i"`
@@ -56,8 +66,55 @@ type c20Typed struct {
 		S string `koanf:"s"`
 		I int    `koanf:"i"`
 	} `koanf:"n"`
-	L []string `koanf:"l"`
-	P *string  `koanf:"p,omitempty"`
+	L []string       `koanf:"l,omitempty"`
+	P *string        `koanf:"p,omitempty"`
+	E []c20Elem      `koanf:"e,omitempty"`
+	M map[string]any `koanf:"m,omitempty"`
+}
+
+// c20Untyped reports a free-form value with its scalars as c20Scalar shows them
+func c20Untyped(v any) any {
+	switch t := v.(type) {
+	case map[string]any:
+		res := make(map[string]any, len(t))
+		for k, x := range t {
+			res[k] = c20Untyped(x)
+		}
+
+		return res
+	case []any:
+		res := make([]any, len(t))
+		for i, x := range t {
+			res[i] = c20Untyped(x)
+		}
+
+		return res
+	default:
+		return c20Scalar(v)
+	}
+}
+
+// c20TypedDefaults fills the probe as defaultConfig() fills the real Configuration: {"s","i","b","d","n.s","n.i","m"}
+func c20TypedDefaults(probe *c20Typed, defaults map[string]any) {
+	for k, v := range defaults {
+		switch k {
+		case "s":
+			probe.S, _ = v.(string)
+		case "n.s":
+			probe.N.S, _ = v.(string)
+		case "i":
+			probe.I, _ = c20Plain(v).(int)
+		case "n.i":
+			probe.N.I, _ = c20Plain(v).(int)
+		case "b":
+			probe.B, _ = v.(bool)
+		case "d":
+			str, _ := v.(string)
+			probe.D, _ = time.ParseDuration(str)
+		case "m":
+			probe.M, _ = c20Plain(v).(map[string]any)
+		}
+	}
 }
 
 func init() { families["config"] = runConfig }
@@ -263,6 +320,10 @@ func c20LoadOnce(c map[string]any, file string) (out any) {
 	if getStr(c, "op") == "leaf" {
 		probe := c20Typed{}
 
+		if defaults, ok := c["defaults"].(map[string]any); ok {
+			c20TypedDefaults(&probe, defaults)
+		}
+
 		opts := []parser.Option{
 			parser.WithEnvPrefix(c20Prefix),
 			parser.WithDecodeHookFunc(mapstructure.StringToTimeDurationHookFunc()),
@@ -280,6 +341,19 @@ func c20LoadOnce(c map[string]any, file string) (out any) {
 			"n.i": probe.N.I, "l": probe.L}
 		if probe.P != nil {
 			res["p"] = *probe.P
+		}
+
+		if probe.E != nil {
+			elems := make([]any, len(probe.E))
+			for i, e := range probe.E {
+				elems[i] = map[string]any{"s": e.S, "i": e.I, "c": c20Untyped(map[string]any(e.C))}
+			}
+
+			res["e"] = elems
+		}
+
+		if probe.M != nil {
+			res["m"] = c20Untyped(probe.M)
 		}
 
 		return res
